@@ -32,6 +32,12 @@ Check(r, idx) ==
     \* reader stores into the replaced node afterwards (op sia-cmpgate: the reader's own lookup, before the deadline, is the one hit)
     \o (IF r.hang = 0 /\ r.sc.op = "sia.cmpgate" /\ (r.hits # 1 \/ r.misses # 1)
         THEN <<F(idx, "C20.compute_over_expired_entry_not_a_miss", <<r.hits, r.misses, r.sc>>)>> ELSE <<>>)
+    \* C04 / C05: an eviction run parked in a deletion handler while every other key is rewritten (op ev-rewrite): afterwards the entries
+    \* present are within the lowered maximum (sc.max), and the orderings enumerate exactly them
+    \o (IF r.sc.op = "ev.rewrite" /\ (r.hang = 1 \/ r.live > r.sc.max \/ r.estmid > r.sc.max)
+        THEN <<F(idx, "C04.bound_after_eviction_of_rewritten_keys", <<r.live, r.estmid, r.cold, r.hang, r.sc>>)>> ELSE <<>>)
+    \o (IF r.sc.op = "ev.rewrite" /\ r.hang = 0 /\ r.live # r.cold
+        THEN <<F(idx, "C05.present_but_unknown_to_policy", <<r.live, r.cold, 0, r.sc>>)>> ELSE <<>>)
     \* C17: the read buffer at quiescence holds no published element out of the consumer's reach (op rb-clear: readers parked between the
     \* reservation of their slot and its publication, across an InvalidateAll and across a maintenance run)
     \o (IF r.sc.op = "rb.clear" /\ (r.hang = 1 \/ r.stranded > 0) THEN <<F(idx, "C17.recorded_read_out_of_reach", <<r.stranded, r.hang, r.sc>>)>> ELSE <<>>)
